@@ -96,6 +96,8 @@ type c04Exec struct {
 	live  []liveSlice
 	kind  string
 	hist  []string
+	// reopenMayPrune: the usage figure persisted before the reopen being executed exceeded the capacity
+	reopenMayPrune bool
 }
 
 type liveSlice struct {
@@ -146,6 +148,9 @@ func (x *c04Exec) step(ev string, check bool) bool {
 			}
 		}
 	case "reopen":
+		// opening prunes only a store whose persisted usage figure exceeds the capacity (C17)
+		_, rec, _ := x.env.scan()
+		x.reopenMayPrune = rec > x.env.capMB*1_000_000
 		if err := x.env.reopen(); err != nil {
 			x.viol("reopen-succeeds", "NewStorage", err.Error())
 			return false
@@ -173,7 +178,7 @@ func (x *c04Exec) step(ev string, check bool) bool {
 	if check {
 		// opening a store whose usage figure exceeds the capacity prunes it (C17), so a
 		// reopen may remove items just like a put
-		return x.reconcile(ev, parts[0] == "put" || parts[0] == "reopen") && x.checkLive(ev)
+		return x.reconcile(ev, parts[0] == "put" || parts[0] == "reopen" && x.reopenMayPrune) && x.checkLive(ev)
 	}
 	return x.quietReconcile(parts[0] == "put" || parts[0] == "churn" || parts[0] == "reopen")
 }
